@@ -92,6 +92,7 @@ def stepAuth (c : CS) (l : Line) : CS :=
         -- a policy session without authValue does not protect the parameters: altered parameters may fail on their own
         if rc ≠ 0 ∧ l.nat "corrupt" = 4 then c else
         if rc ≠ 0 then mism c s!"SPEC[valid-auth-refused] {l.str "what"} cc={cmd.cc} ({kind}): a correct authorization was answered rc={rc}" else
+        let st0 := c.st      -- sessions as they were when the command arrived (the response handling below rolls the nonces)
         -- response: nonce rolls, HMAC verifies
         let body := rsp.drop (10 + rspHandleBytes cmd.cc)
         let psz := (rdBE body 0 4).getD 0
@@ -117,9 +118,33 @@ def stepAuth (c : CS) (l : Line) : CS :=
                 let c := if exp ≠ rh' then mism c s!"SPEC[response-hmac] {l.str "what"} cc={cmd.cc} ({kind}): response HMAC {hexOfBytes rh'} ≠ reference {hexOfBytes exp}" else c
                 { c with st := { (c.st.rollNonce a.sh nt) with sess := (c.st.rollNonce a.sh nt).sess.map (fun x => if x.handle == a.sh then resetPolicy x else x) } }
           | _, _, _ => c) c
+        -- parameter encryption: what the first session's attributes ask for
+        let a0 := cmd.auths.head?
+        let s0 := a0.bind (fun a => st0.session a.sh)
+        let e0 := (cmd.handles.head?).bind st0.ent
+        let decrypt : Bool := match a0 with | some a => a.attrs / 32 % 2 == 1 | none => false
+        let encrypt : Bool := match a0 with | some a => a.attrs / 64 % 2 == 1 | none => false
+        -- the command's first parameter as the TPM sees it after decryption
+        let plainParams : Bytes := match decrypt, a0, s0, e0, take2B cmd.params with
+          | true, some a, some s, some e, some (d, r) => be16 d.length ++ paramCrypt s.sym (sessKey s e) a.nonce s.nonceTPM d false ++ r
+          | _, _, _, _, _ => cmd.params
+        -- an encrypted response parameter must decrypt to what the model holds (NV_Read)
+        let c := match encrypt, a0, s0, e0, rs.head?, take2B rparams with
+          | true, some a, some s, some e, some (ntNew, _, _), some (d, _) =>
+            let plain := paramCrypt s.sym (sessKey s e) ntNew a.nonce d false
+            if cmd.cc = 0x14E then
+              let size := (rdBE cmd.params 0 2).getD 0; let off := (rdBE cmd.params 2 2).getD 0
+              match cmd.handles[1]?.bind (fun idx => c.nv.find? (·.1 == idx)) with
+              | some (_, nvd) =>
+                if plain ≠ (nvd.drop off).take size then
+                  mism c s!"SPEC[encrypted-response] NV_Read response decrypts (sym {s.sym}) to {hexOfBytes plain}, the index holds {hexOfBytes ((nvd.drop off).take size)}"
+                else branch c s!"encrypted-response/sym={s.sym}/ok"
+              | none => c
+            else c
+          | _, _, _, _, _, _ => c
         -- effects of the authorized command in the model
         if cmd.cc = CC_NV_Write then
-          match take2B cmd.params, cmd.handles[1]? with
+          match take2B plainParams, cmd.handles[1]? with
           | some (data, r), some idx =>
             let off := (rdBE r 0 2).getD 0
             { c with nv := c.nv.map (fun (h, d) => if h = idx then (h, d.take off ++ data ++ d.drop (off + data.length)) else (h, d)) }
@@ -160,11 +185,13 @@ def step (c : CS) (l : Line) : CS :=
       let be := if bind = RH_NULL then none else c.st.ent bind
       let nt := l.bytes "nt"; let nc := l.bytes "nc"
       let ty := l.nat "type"
+      let salt : Bytes := if l.get? "ephd" = none then [] else (eccSalt (beNat (l.bytes "ephd")) (beNat (l.bytes "kx")) (beNat (l.bytes "ky"))).getD []
+      let sym := l.nat "sym"
       let s : Session := match be with
-        | none => { handle := l.nat "h", nonceTPM := nt, key := [], bound := false, bindName := [], bindAuth := [], policy := ty != 0, trial := ty == 3 }
-        | some e => { handle := l.nat "h", nonceTPM := nt, key := sessionKey e.auth nt nc, bound := ty == 0, bindName := e.name, bindAuth := e.auth, policy := ty != 0, trial := ty == 3 }
+        | none => { handle := l.nat "h", nonceTPM := nt, key := sessionKeyWith [] salt nt nc, bound := false, bindName := [], bindAuth := [], policy := ty != 0, trial := ty == 3, sym := sym }
+        | some e => { handle := l.nat "h", nonceTPM := nt, key := sessionKeyWith e.auth salt nt nc, bound := ty == 0, bindName := e.name, bindAuth := e.auth, policy := ty != 0, trial := ty == 3, sym := sym }
       let c := if s.key ≠ l.bytes "skey" then mism c s!"session key: harness {l.str "skey"} ≠ reference KDFa {hexOfBytes s.key}" else c
-      let c := branch c s!"sstart/bound={s.bound}/type={ty}"
+      let c := branch c s!"sstart/bound={s.bound}/type={ty}/salted={decide (salt ≠ [])}/sym={sym}"
       { c with st := { c.st with sess := s :: c.st.sess.filter (·.handle ≠ s.handle) } }
   | "sflush" => { c with st := { c.st with sess := c.st.sess.filter (·.handle ≠ l.nat "h") } }
   | "pol" =>
